@@ -191,3 +191,52 @@ def plan_C18(tier, seed):
                       "one growth case (volume x size distribution x initial capacity) or one Vec/String capacity/growth case; distinct = distinct parameter tuples"),
                 shards=shards, require={"c18.capacity_cases": 5000, "c18.capacity_probes": 1000, "c18.growth_cases": 100, "c18.vec_capacity_cases": 500, "c18.vec_growth_cases": 50},
                 assumptions=ASSUME_COMMON + ["the asymptotic clauses are restated as explicit bounds: chunks <= 3+log2(occupied/64)+#requests larger than the current chunk; Vec moves <= 3+log2(n); held <= 6*max(occupied,capacity)+4*max_align+16KiB (arena), 24*occupied+16KiB (Vec with neighbours); new chunk never smaller than its predecessor in fault-free, limit-free, reset-free runs"])
+
+
+def plan_C19(tier, seed):
+    q = tier == "quick"
+    shards = []
+    n = 0
+    for ma in MAS:
+        for eng in ("debug", "release"):
+            shards.append(sh(eng, "c19", seed, n, timeout=900, ma=ma))
+            n += 1
+    # random histories that mix huge requests with ordinary ones (faults profile has them at weight 6)
+    for ma in MAS:
+        for eng in ("debug", "release"):
+            shards.append(sh(eng, "arena", seed, 100 + n, ma=ma, iters=(40 if q else 400), ops=150, profile="faults"))
+            n += 1
+    return dict(level="exploration", exhaustive=True,
+                rule=("one evaluation = one (entry point, element size, boundary count, arena/vector state, flavour) cell of a finite grid enumerated completely in debug and release for every MIN_ALIGN, "
+                      "plus random histories mixing huge requests with ordinary ones; distinct = distinct grid cells"),
+                shards=shards, require={"c19.grid_err": 1000, "c19.grid_panic": 1000, "c19.vec_err": 2000, "c19.vec_panic": 2000, "c19.huge_err": 2000},
+                assumptions=ASSUME_COMMON + ["the global allocator refuses chunk requests above 64 MiB, so an Ok for a request whose true size exceeds that cannot be backed by memory"])
+
+
+def plan_C20(tier, seed):
+    q = tier == "quick"
+    shards = []
+    n = 0
+    for rep in range(1 if q else 6):
+        for ma in MAS:
+            for eng in ("debug", "release"):
+                shards.append(sh(eng, "c20", seed, n, timeout=900, ma=ma, iters=(12 if q else 60), ops=(120 if q else 200), threads=(3 + n % 4)))
+                n += 1
+    # ThreadSanitizer: detector-oriented rounds + the trace workload
+    for i in range(3 if q else 24):
+        shards.append(sh("tsan", "c20race", seed, 200 + i, timeout=900, iters=(300 if q else 1500), threads=2 + i % 7))
+    for i in range(2 if q else 10):
+        shards.append(sh("tsan", "c20", seed, 300 + i, timeout=900, ma=MAS[i % 5], iters=(3 if q else 12), ops=100, threads=2 + i % 5, instrumented=1))
+    # Miri: data-race detector with many schedules
+    for i in range(1 if q else 8):
+        shards.append(sh("miri", "c20race", seed + i, 400 + i, timeout=1500, iters=3, threads=3,
+                         miriflags="-Zmiri-many-seeds=%d..%d -Zmiri-preemption-rate=0.05" % (i * 8, i * 8 + (6 if q else 8))))
+    for i in range(1 if q else 6):
+        shards.append(sh("miri", "c20", seed, 500 + i, timeout=1800, ma=MAS[(seed + i) % 5], iters=1, ops=(14 if q else 30), threads=2, single=(0 if q else 1),
+                         miriflags="-Zmiri-preemption-rate=0.05"))
+    return dict(level="exploration", required_engines=["debug", "release", "tsan"],
+                rule=("one evaluation = one comparison of an arena's per-call trace against its solo run: interleaved with other arenas on one thread, with one arena per thread (barriers between calls), "
+                      "or handed over between threads mid-history; plus detector rounds under ThreadSanitizer and Miri; distinct = distinct global interleaving signatures (hash of the observed order of (thread, call) tickets)"),
+                shards=shards, require={"c20.trace_entries_compared": 50000, "c20.thread_switches_observed": 2000, "c20.race_rounds": 1000, "c20.hand_over_runs": 20},
+                assumptions=ASSUME_COMMON + ["twin runs use a deterministic-placement allocator mode (chunk base = align mod 8192) so that placement relative to the chunk base depends only on the arena's own history",
+                                             "race detectors only see the schedules that occurred; TSan runs are repeated with 2-8 threads, Miri with several scheduler seeds"])
